@@ -88,6 +88,7 @@ static void harness(void) {
   buf = (u8 *)exact_alloc(n);
   for (u64 i = 0; i < C19_N; ++i) { u8 v = IN_BYTE(); if (i < n) buf[i] = v; }
   k = IN(0, n);
+  u64 j = IN(0, n);   /* where the input stands when the helpers are asked about the position taken at k */
   ib = IN(0, C19_CMAX);
   il = IN(1, C19_CMAX);
   ic = IN(1, C19_CMAX);
@@ -114,7 +115,7 @@ static void harness(void) {
 #ifdef KF_ONLY_C19_EOL2
   KNOWN_ONLY(C19_EOL2);
 #endif
-  C19_W(buf, n, k, ib, il, ic, o);
+  C19_W(buf, n, k, j, ib, il, ic, o);
   CHECK(o[0] == o[9] && o[1] == o[10] && o[2] == o[11], "eager and lazy position() are identical");
   check1(o);
   check1(o + 9);
@@ -124,6 +125,8 @@ static void harness(void) {
   REACH(1, "the known failing case is reachable");
 #else
   REACH(k == n && n > 0 && sb < k && has_ch_before(k), "position at the very end, behind a line ending, in a non-empty last line");
+  REACH(j < k && se > k, "input stands before the queried position");
+  REACH(j > k && sb < k, "input stands behind the queried position");
   REACH(k < n && sb > 0 && sb <= k && se >= k && se < n, "position in a line that has a predecessor and a line ending");
   REACH(k == n && sb == n && n > 0, "position at the very end directly behind a line ending (empty last line)");
 #if !C19_DEFAULT_COUNTERS
